@@ -251,7 +251,7 @@ def template_grammars():
     W, NUM = ('ref', 'Word'), ('ref', 'Num')
     stmts3 = [
         ('rule', 'start', None, ('star', ('ref', 'Item'))),
-        ('rule', 'Item', None, ('alt', [('ref', 'KwLet'), ('ref', 'KwCall'), ('ref', 'KwCls'), ('ref', 'TabCls'), ('ref', 'Misc')])),
+        ('rule', 'Item', None, ('alt', [('ref', 'KwLet'), ('ref', 'KwCall'), ('ref', 'KwCls'), ('ref', 'TabCls'), ('ref', 'Misc'), ('ref', 'UseRep')])),
         ('rule', 'Pairing', ['first', 'second'], ('seq', [('ref', 'first'), ('str', '~'), ('ref', 'second')])),
         ('rule', 'KwLet', None, ('let', 'kl', ('right', ('str', 'k'), W),
                                  ('call', 'Pairing', [('kw', 'first', W), ('kw', 'second', ('where', W, ('py', 'lambda t: t != kl')))]))),
@@ -266,11 +266,15 @@ def template_grammars():
                                  ('field', 'mc', ('opt', ('longest', [NUM, W]))), ('field', 'md', ('skip', [('str', ';')])),
                                  ('field', 'me', ('right', ('expectnot', ('str', '^')), ('py', 'ma'))),
                                  ('field', 'mf', ('rep', ('str', '.'), None, 2))]),
+        # a class template with a value parameter, also used directly as entry point: RepC.parse(2)(text)
+        ('class', 'RepC', ['cn'], [('field', 'ri', ('rep', W, ('name', 'cn'), ('name', 'cn'))), ('field', 'rt', ('py', 'cn'))]),
+        ('rule', 'UseRep', None, ('right', ('str', '*'), ('call', 'RepC', [('num', '2')]))),
         ('rule', 'Num', None, ('re', '[0-9]+', False)),
         ('rule', 'Word', None, T),
         ('irule', 'Blank', ('re', ' +', False)),
     ]
-    roles3 = {'Item': 'rule', 'Pairing': 'template', 'first': 'param', 'second': 'param', 'KwLet': 'rule', 'kl': 'let',
+    roles3 = {'RepC': 'class-template', 'cn': 'param', 'ri': 'field', 'rt': 'field', 'UseRep': 'rule',
+              'Item': 'rule', 'Pairing': 'template', 'first': 'param', 'second': 'param', 'KwLet': 'rule', 'kl': 'let',
               'KwTpl': 'template', 'kp': 'param', 'KwCall': 'rule', 'KwCls': 'class', 'kf': 'field', 'kg': 'field', 'kh': 'field',
               'Wrap1': 'template', 'wp': 'param', 'TabCls': 'class', 'ta': 'field', 'tb': 'field', 'tc': 'field',
               'Misc': 'class', 'ma': 'field', 'mb': 'field', 'mc': 'field', 'md': 'field', 'me': 'field', 'mf': 'field'}
@@ -282,14 +286,20 @@ INPUTS = {
     'main': ['', 'a', 'a:1', 'a=b', 'a:1,2,3', 'a:1! b', '(a;b:2;)', '<a b>', '<a>3', '$a b', '$a ? b', '$a a', 'a:1 (b) <c d> $e f',
              '(a:1,2;(b))', 'a:', '(a', '<a b c>', '$', 'a : 1 , 2', '%22 <a b>', '%1 <a>', '%1 <>', '&a <b>', '&a <a>', '%22 <a> &x <y>', '<a b>', '<a b>22'],
     'constructs': ['', 'k a b~c', 'k a b~a', 't a~!', '@a b~1', '#<a+b!> c', '#<a> b', '^a 1,2 x;', '^a ;;..', '^a 1 22 ;.',
-                   'k a b~c t d~! @e f~2 #<g+h> i ^j 1,2,3 9 ; ..', 'k a b', '@a b~', '#<a+> c', '^', '^a 1, ;'],
+                   'k a b~c t d~! @e f~2 #<g+h> i ^j 1,2,3 9 ; ..', 'k a b', '@a b~', '#<a+> c', '^', '^a 1, ;', '*a b', '*a',
+                   ('entry', 'RepC', (2,), 'a b'), ('entry', 'RepC', (1,), 'a b'), ('entry', 'RepC', (0,), ''), ('entry', 'RepC', (3,), 'a b')],
     'optable': ['1', '1+2', '1+2*3', '-1!', '(1+2)*3', '12x+1', '(1', '1+', '((1))!', '1*(2+3)!'],
 }
 
 
-def exercise(g, text):
-    """parse + the documented tree API; returns a normal form (or the exception)."""
-    o = observe.observe(g, text)
+def exercise(g, text, mp=None):
+    """parse + the documented tree API; returns a normal form (or the exception).  An input may be a
+    tuple ('entry', class template, arguments, text): the class template is then the entry point."""
+    if isinstance(text, tuple):
+        _, cname, args, text = text
+        o = observe.observe(g, text, entry=((mp or {}).get(cname, cname), args))
+    else:
+        o = observe.observe(g, text)
     extra = None
     if o.value is not None:
         try:
@@ -338,7 +348,7 @@ def run_renaming(rec, tag, G, base, mp, roles, ex_attrs, regime, inputs):
     g2 = r[1]
     for text in inputs:
         want = base[text]
-        got = exercise(g2, text)
+        got = exercise(g2, text, mp)
         rec.case()
         o = got[0]
         if o[0] == 'value':
